@@ -62,3 +62,50 @@ Qed.
 (* and, for contrast, what the model says when the type check wrongly SUCCEEDS on nano_virt --run: the program is executed *)
 Example accepted_runs : forall ok, (forall ph, ok ph = true) -> o_executed (run_tool VirtRun ok) = true /\ o_artifact (run_tool VirtEmit ok) = true.
 Proof. intros ok H. unfold run_tool. vm_compute phases_of. simpl. rewrite !H. simpl. split; reflexivity. Qed.
+
+(* strongest form for the front end: NO hypothesis on the other phases.  Whatever the outcome function, when any of the
+   four front-end phases (lexer, parser, imports, type check) fails, every tool invocation ends rejected: the first of
+   them to fail stops the driver, and nothing in front of it writes or runs anything. *)
+Lemma front4 t ok r : tc_guard t = true ->
+  ok PLex && ok PParse && ok PImports && ok PTypeCheck = false ->
+  run_phases t ok (PLex :: PParse :: PImports :: PTypeCheck :: r) start = rejected.
+Proof.
+  intros G H. cbn [run_phases]. unfold stops. cbn [phase_eqb]. rewrite G.
+  destruct (ok PLex); [|reflexivity]. destruct (ok PParse); [|reflexivity].
+  destruct (ok PImports); [|reflexivity]. destruct (ok PTypeCheck); [discriminate H|reflexivity].
+Qed.
+
+Lemma phases_front4 : forall t, exists r, phases_of t = PLex :: PParse :: PImports :: PTypeCheck :: r.
+Proof. destruct t; eexists; vm_compute; reflexivity. Qed.
+
+Theorem driver_stops_front : forall t ok,
+  ok PLex && ok PParse && ok PImports && ok PTypeCheck = false -> run_tool t ok = rejected.
+Proof.
+  intros t ok H. unfold run_tool. destruct (phases_front4 t) as [r ->].
+  apply front4; [exact (proj2 (tables_ok t))|exact H].
+Qed.
+
+(* contrapositive, the way the property reads: an artifact on disk or any execution of program code implies that the
+   whole front end accepted the program *)
+Corollary artifact_or_exec_needs_front : forall t ok,
+  o_artifact (run_tool t ok) = true \/ o_executed (run_tool t ok) = true ->
+  ok PLex = true /\ ok PParse = true /\ ok PImports = true /\ ok PTypeCheck = true.
+Proof.
+  intros t ok H.
+  destruct (ok PLex && ok PParse && ok PImports && ok PTypeCheck) eqn:E.
+  - apply andb_true_iff in E. destruct E as [E E4]. apply andb_true_iff in E. destruct E as [E E3].
+    apply andb_true_iff in E. destruct E as [E1 E2]. auto.
+  - rewrite (driver_stops_front t ok E) in H. destruct H as [H|H]; discriminate H.
+Qed.
+
+(* and a clean exit implies it too: exit 0 is never reported for a program the front end refused *)
+Corollary exit_zero_needs_front : forall t ok,
+  o_exit_nonzero (run_tool t ok) = false ->
+  ok PLex = true /\ ok PParse = true /\ ok PImports = true /\ ok PTypeCheck = true.
+Proof.
+  intros t ok H.
+  destruct (ok PLex && ok PParse && ok PImports && ok PTypeCheck) eqn:E.
+  - apply andb_true_iff in E. destruct E as [E E4]. apply andb_true_iff in E. destruct E as [E E3].
+    apply andb_true_iff in E. destruct E as [E1 E2]. auto.
+  - rewrite (driver_stops_front t ok E) in H. discriminate H.
+Qed.
